@@ -34,11 +34,15 @@ func (h *verifHash) Sum(b []byte) []byte {
 
 func verifNewHash(tag string) *verifHash { return &verifHash{tag: tag, memo: map[string][]byte{}} }
 
-type verifEP struct{ name string }
+type verifEP struct {
+	name string
+	ip   string
+	port int
+}
 
 func (e *verifEP) String() string              { return e.name }
-func (e *verifEP) IP() string                  { return e.name }
-func (e *verifEP) Port() int                   { return 80 }
+func (e *verifEP) IP() string                  { return e.ip }
+func (e *verifEP) Port() int                   { return e.port }
 func (e *verifEP) IsLocal() bool               { return false }
 func (e *verifEP) IsReady() bool               { return true }
 func (e *verifEP) IsServing() bool             { return true }
@@ -84,9 +88,17 @@ func VerifHarness_C33_generate() {
 	m := verifParam("M", 7)
 	n := verifParam("N", 2)
 	names := []string{"10.0.0.1:80", "10.0.0.2:80", "10.0.0.3:80"}[:n]
+	ips := []string{"10.0.0.1", "10.0.0.2", "10.0.0.3"}
+	ports := []int{80, 80, 80}
+	if verifParam("SAMEIP", 0) == 1 {
+		// two backends on one address (host-networked replicas, named target ports)
+		names = []string{"10.0.0.1:80", "10.0.0.1:8080", "10.0.0.2:80"}[:n]
+		ips = []string{"10.0.0.1", "10.0.0.1", "10.0.0.2"}
+		ports = []int{80, 8080, 80}
+	}
 	eps := make([]*verifEP, n)
 	for i := range eps {
-		eps[i] = &verifEP{names[i]}
+		eps[i] = &verifEP{names[i], ips[i], ports[i]}
 	}
 	h1, h2 := verifNewHash("h1"), verifNewHash("h2")
 	fwd := New(m, h1, h2)
